@@ -411,6 +411,31 @@ def check_lang(case) -> Case:
     return Case(key=h(["lang", section, key, lang, v_lang, v_base, case.get("cli_value")]), nontrivial=v_lang != v_base, labels=labels, failures=failures)
 
 
+def check_langmix(case) -> Case:
+    """A per-language section that sets only SOME thresholds: files of that language follow the section for the keys
+    it sets and the top-level values for the others; files of other languages follow the top-level values."""
+    name, section = case["linter"], case["section"]
+    L = LINTERS[name]
+    files = L["files"]()
+    lang, base, over = case["lang"], case["base"], case["over"]
+    ext = seeds.EXT[lang]
+    failures, labels = [], ["kind=langmix", f"section={section}", f"lang={lang}", "keys=" + "+".join(sorted(over))]
+    cfg = full_cfg(name, section, {**base, LANG_KEY[lang]: over})
+    e, got, err, _ = run_with(files, L["cmd"], case["carrier"], case["spelling"], cfg)
+    if got is None:
+        return Case(h(case), False, labels, [Failure(f"{section}|langmix|bad-exit-{e}", {"cfg": cfg, "stderr": err})])
+    _, w_lang, _, _ = run_with(files, L["cmd"], "yaml", "hyphen", full_cfg(name, section, {**base, **over}))
+    _, w_base, _, _ = run_with(files, L["cmd"], "yaml", "hyphen", full_cfg(name, section, base))
+    want = Counter({k: n for k, n in w_lang.items() if k[1].endswith(ext)}) + Counter({k: n for k, n in w_base.items() if not k[1].endswith(ext)})
+    if got != want:
+        d = runner.diff_multisets(want, got)
+        wrong_lang = any(k[1].endswith(ext) for k in d["only_left"] + d["only_right"])
+        unset = sorted(set(base) - set(over))
+        failures.append(Failure(f"{section}|langmix|{'language-files-misjudged' if wrong_lang else 'override-leaks-to-other-language'}|unset=" + "+".join(unset),
+                                {"cfg": cfg, **d}))
+    return Case(key=h(["langmix", section, lang, sorted(base.items()), sorted(over.items())]), nontrivial=w_lang != w_base, labels=labels, failures=failures)
+
+
 def check_invalid(case) -> Case:
     name, section = case["linter"], case["section"]
     L = LINTERS[name]
@@ -461,7 +486,7 @@ def check_ignore(case) -> Case:
     return Case(key=h(["ignore", name, case["carrier"], case["form"] % 3]), nontrivial=len(targets) > 1, labels=labels, failures=failures)
 
 
-CHECKS = {"diff": check_diff, "sweep": check_sweep, "stack": check_stack, "lang": check_lang, "invalid": check_invalid, "ignore": check_ignore}
+CHECKS = {"diff": check_diff, "sweep": check_sweep, "stack": check_stack, "lang": check_lang, "langmix": check_langmix, "invalid": check_invalid, "ignore": check_ignore}
 
 
 def check(case) -> Case:
@@ -509,6 +534,22 @@ def lang_cases(draw):
             "v_lang": draw(st.sampled_from(values)), "v_base": draw(st.sampled_from(values)), "carrier": draw(st.sampled_from(CARRIERS)), "cli_value": cli_value}
 
 
+LANGMIX = {"srp": ["max_methods", "max_loc"], "nesting": ["max_nesting_depth"]}
+
+
+@st.composite
+def langmix_cases(draw):
+    name = draw(st.sampled_from(sorted(LANGMIX)))
+    L = LINTERS[name]
+    knobs = dict(L["knobs"])
+    keys = LANGMIX[name]
+    base = {k: draw(st.sampled_from(knobs[k])) for k in keys}
+    over_keys = draw(st.lists(st.sampled_from(keys), min_size=1, max_size=len(keys), unique=True))
+    over = {k: draw(st.sampled_from(knobs[k])) for k in over_keys}
+    return {"kind": "langmix", "linter": name, "section": L["sections"][0], "lang": draw(st.sampled_from(["py", "ts", "rs"])), "base": base, "over": over,
+            "carrier": draw(st.sampled_from(CARRIERS)), "spelling": "hyphen"}
+
+
 def matrix_cells():
     cells = []
     for name, L in LINTERS.items():
@@ -549,6 +590,7 @@ def run(ctx):
         ctx.explore(diff_cases(name, section), check, max_examples=ctx.n(3, 25), salt=10 + i)
     ctx.explore(stack_cases(), check, max_examples=ctx.n(12, 150), salt=2)
     ctx.explore(lang_cases(), check, max_examples=ctx.n(6, 80), salt=3)
+    ctx.explore(langmix_cases(), check, max_examples=ctx.n(12, 150), salt=4)
 
 
 def replay(case) -> Case:
